@@ -455,6 +455,119 @@ theorem C18_nego (v q : Str) (hv : splitQ v = none) (hq : splitQ q = none) (hs :
   rw [splitQ_render v q hv]
   simp [hq, hs]
 
+/-! ### negotiation lists as a whole -/
+
+/-- an item that survives a round trip: no comma and no `;q=` inside, no blanks around the value -/
+structure NegoOK (x : Str × Option Str) : Prop where
+  vcomma : ',' ∉ x.1
+  vq : splitQ x.1 = none
+  vstrip : strip x.1 = x.1
+  qcomma : ∀ q, x.2 = some q → ',' ∉ q
+  qq : ∀ q, x.2 = some q → splitQ q = none
+
+theorem split_join (x : Str) (xs : List Str) (h : ∀ y ∈ x :: xs, ',' ∉ y) :
+    (joinCommaSpace (x :: xs)).splitOn ',' = x :: xs.map (' ' :: ·) := by
+  induction xs generalizing x with
+  | nil =>
+    simp only [joinCommaSpace, List.map_nil]
+    exact List.splitOn_eq_singleton (h x (by simp))
+  | cons y ys ih =>
+    simp only [joinCommaSpace, List.map_cons]
+    rw [List.splitOn_append_cons_self_of_not_mem (h x (by simp))]
+    congr 1
+    -- the rest starts with the blank of the separator
+    have hrest := ih y (fun z hz => h z (by simp at hz ⊢; exact Or.inr hz))
+    cases hys : ys with
+    | nil =>
+      subst hys
+      simp only [joinCommaSpace, List.map_nil] at hrest ⊢
+      exact List.splitOn_eq_singleton (by
+        intro hm; rcases List.mem_cons.1 hm with h1 | h1
+        · cases h1
+        · exact h y (by simp) h1)
+    | cons z zs =>
+      subst hys
+      simp only [joinCommaSpace, List.map_cons] at hrest ⊢
+      have e : (' ' :: (y ++ ',' :: ' ' :: joinCommaSpace (z :: zs))) = (' ' :: y) ++ ',' :: (' ' :: joinCommaSpace (z :: zs)) := by simp
+      rw [e, List.splitOn_append_cons_self_of_not_mem (by
+        intro hm; rcases List.mem_cons.1 hm with h1 | h1
+        · cases h1
+        · exact h y (by simp) h1)]
+      rw [List.splitOn_append_cons_self_of_not_mem (h y (by simp))] at hrest
+      simp only [List.cons.injEq, true_and] at hrest ⊢
+      exact hrest
+
+
+theorem splitQ_space (v : Str) (hv : splitQ v = none) : splitQ (' ' :: v) = none := by
+  rw [splitQ]
+  · simp [hv]
+  · intro r h; cases h
+
+theorem strip_space (v : Str) : strip (' ' :: v) = strip v := by
+  unfold strip
+  have : isSpace ' ' = true := by decide
+  simp [List.dropWhile, this]
+
+/-- one rendered item parses back, with or without the blank that follows a comma -/
+theorem nego_item (x : Str × Option Str) (h : NegoOK x) :
+    parseNegoItem (renderNegoItem x.1 x.2) = x ∧ parseNegoItem (' ' :: renderNegoItem x.1 x.2) = x := by
+  obtain ⟨v, q⟩ := x
+  cases q with
+  | none =>
+    simp only [renderNegoItem, parseNegoItem, h.vq, splitQ_space v h.vq, strip_space, h.vstrip, and_self]
+  | some q =>
+    have hq := h.qq q rfl
+    constructor
+    · exact (C18_nego v q h.vq hq h.vstrip)
+    · have e : (' ' :: renderNegoItem v (some q)) = (' ' :: v) ++ (';' :: 'q' :: '=' :: q) := by
+        simp [renderNegoItem]
+      rw [e]
+      unfold parseNegoItem
+      rw [splitQ_render (' ' :: v) q (splitQ_space v h.vq)]
+      simp [hq, strip_space, h.vstrip]
+
+/-- **C18, negotiation lists**: parsing what `render_negotiation` wrote returns the items, in order -/
+theorem C18_nego_list (items : List (Str × Option Str)) (hne : items ≠ []) (hok : ∀ x ∈ items, NegoOK x) :
+    parseNegotiation (renderNegotiation items) = items := by
+  obtain ⟨x, xs, rfl⟩ : ∃ x xs, items = x :: xs := by
+    cases items with
+    | nil => exact absurd rfl hne
+    | cons x xs => exact ⟨x, xs, rfl⟩
+  unfold parseNegotiation renderNegotiation
+  simp only [List.map_cons]
+  have hcomma : ∀ y ∈ renderNegoItem x.1 x.2 :: xs.map (fun z => renderNegoItem z.1 z.2), ',' ∉ y := by
+    intro y hy
+    have key : ∀ z : Str × Option Str, NegoOK z → ',' ∉ renderNegoItem z.1 z.2 := by
+      intro z hz
+      obtain ⟨v, q⟩ := z
+      cases q with
+      | none => exact hz.vcomma
+      | some q =>
+        simp only [renderNegoItem]
+        intro hm
+        rcases List.mem_append.1 hm with h1 | h1
+        · exact hz.vcomma h1
+        · simp only [List.mem_cons] at h1
+          rcases h1 with h1 | h1 | h1 | h1
+          · cases h1
+          · cases h1
+          · cases h1
+          · exact hz.qcomma q rfl h1
+    rcases List.mem_cons.1 hy with rfl | hy
+    · exact key x (hok x (by simp))
+    · obtain ⟨z, hz, rfl⟩ := List.mem_map.1 hy
+      exact key z (hok z (by simp [hz]))
+  rw [split_join _ _ hcomma]
+  simp only [List.map_cons, List.map_map, (nego_item x (hok x (by simp))).1, List.cons.injEq, true_and]
+  calc List.map (parseNegoItem ∘ (fun y => ' ' :: y) ∘ fun z => renderNegoItem z.1 z.2) xs
+      = List.map id xs := by
+        apply List.map_congr_left
+        intro z hz
+        simp only [Function.comp, id]
+        exact (nego_item z (hok z (by simp [hz]))).2
+    _ = xs := by simp
+
+
 /-! ### HTTP dates -/
 
 /-- **C18, HTTP dates at one-second resolution**: for every timestamp from 1970-01-01 00:00:00 to
